@@ -51,6 +51,8 @@ ROLES = {
     "scope": "liquid.utils.chain_map.ReadOnlyChainMap",
     "cache": "liquid.utils.lru_cache.LRUCache",
     "parser": "liquid.parser.Parser",
+    "block": "liquid.ast.Node",
+    "node": "liquid.ast.Node",
 }
 
 
